@@ -27,6 +27,13 @@ CLAIMED = {
    note=TB + "SHA-256 is abstract in the theorems (hypotheses stated); extension programs assumed inverse and not modelled; clonefile path not reachable here.",
    technique="Lean 4 proof (invariant Intact + round-trip via C07.dec_enc) + differential correspondence through the real command path",
    ref="§5 C01, Appendix H"),
+ "C17": dict(
+   text="Lean theorems for ALL credential maps (any iteration order of the Go map): refusal iff some value contains LF/NUL (or CR under protection); otherwise the helper's line grammar reads back the two "
+        "capability lines and exactly the supplied pairs, line count = 2 + #values; default of credential.protectProtocol and git-lfs's own key set regenerated from creds/creds.go and checked by decide; "
+        "model tied to Creds.buffer in-process (50k maps quick) and end-to-end through `git credential` with a recording helper.",
+   note=TB + "`git credential`'s own parsing and re-serialisation is git's; net/url percent-decoding is exercised end-to-end only.",
+   technique="Lean 4 proof (line-grammar round trip by induction) + regenerated-fact obligations + differential correspondence vs creds.Creds.buffer",
+   ref="§5 C17, Appendix L"),
 }
 PENDING_REASON = "check not built yet in this session (build in progress, see DESIGN.md §10); not claimed until its theorems and correspondence run"
 ALL = ["C%02d" % i for i in range(1, 21)]
